@@ -31,17 +31,22 @@ _EVENTS_AF = [("events", "check_events_allocfail")]
 _NETRW = [("net", "check_net_rw")]
 _NETBUF = [("net", "check_netbuf_read"), ("net", "check_netbuf_write")]
 _HMAC = [("hash", "check_hmac"), ("hash", "check_digest")]
+# every build configuration of alg/sha256.c (portable / SSE2 / SHA-NI) and alg/crc32c.c: the digest
+# properties speak about the library as built, whichever transform the build selects
+_SHACFG = [("shacfg", "check_sha256_configs"), ("accel", "check_accel_transforms")]
+_CRCCFG = [("crc", "check_crc_configs")]
 
 DEPENDS = {
+    "C01": _SHACFG + _CRCCFG,
     "C04": _EVENTS_AF + _HEAP + _EA + _MPOOL,          # timer heap, pollfd array growth, record pools
     "C05": _EVENTS_AF + _HEAP + _EA + _MPOOL,
     "C06": _EVENTS + _HEAP[:2] + _MPOOL,               # readiness delivery, per-address timeout timers, cookie pools
     "C07": _NETRW + _EVENTS[:1],                       # the transport contract (C06) below the buffers
     "C08": _NETBUF + _NETRW + [("net", "check_net_connect")],
     "C09": _NETBUF + _NETRW,
-    "C11": _HMAC,                                      # the generator is parametric in HMAC-SHA256
+    "C11": _HMAC + _SHACFG,                            # the generator is parametric in HMAC-SHA256
     "C13": [("heap", "check_heap_allocfail")] + _EA,   # the heap's array is an elastic array
-    "C19": _HMAC,
+    "C19": _HMAC + _SHACFG,
 }
 
 
